@@ -301,6 +301,10 @@ func (g *G) call(op string, serial uint32) callSpec {
 		gw, pg := g.ip4()
 		a["addr"], a["mask"], a["gw"] = pi, pm, pg
 		f = func(u uhppote.IUHPPOTE) (any, error) { return u.SetAddress(serial, ip, mask, gw) }
+		reproj = func() M {
+			// the three slices the caller still holds
+			return M{"serial": u32(serial), "addr": ints(ip), "mask": ints(mask), "gw": ints(gw)}
+		}
 	case "GetListener":
 		f = func(u uhppote.IUHPPOTE) (any, error) {
 			ap, iv, err := u.GetListener(serial)
